@@ -75,8 +75,14 @@ def main(tier, seed, replay=None):
                 rep.violation(dict(kind="marginalize-raised-unexpectedly", circuit=tab.brief(), keep=keep,
                                    error=f"{type(e).__name__}: {e}"), True)
                 continue
-            if json.dumps(G.Table(root).brief()) != before:
-                rep.violation(dict(kind="original-changed-with-copy-true", circuit=json.loads(before), keep=keep), True)
+            try:
+                after = json.dumps(G.Table(root).brief())
+            except Exception as e:
+                after = f"unreadable: {type(e).__name__}: {e}"
+            if after != before:
+                rep.violation(dict(kind="original-changed-with-copy-true", circuit=json.loads(before), keep=keep,
+                                   original_afterwards=after[:1500]), True)
+                break           # the original of this case is no longer the circuit under test
             rows = []; E = []
             mtab = None; oracle = None
             if mroot is not None:
@@ -84,9 +90,14 @@ def main(tier, seed, replay=None):
                 ks = sorted(set(keep))
                 rows = list(G.assignments(ks, dom, limit=32, rs=rs))
                 X = np.array([G.np_row(c, width, {}) for c in rows], dtype=np.float32)
-                with np.errstate(all="ignore"):
-                    E = np.exp(np.clip(log_likelihood(mroot, X).reshape(-1).astype(np.float64), -700, 50))
-                    E0 = np.exp(np.clip(log_likelihood(root, X).reshape(-1).astype(np.float64), -700, 50))
+                try:
+                    with np.errstate(all="ignore"):
+                        E = np.exp(np.clip(log_likelihood(mroot, X).reshape(-1).astype(np.float64), -700, 50))
+                        E0 = np.exp(np.clip(log_likelihood(root, X).reshape(-1).astype(np.float64), -700, 50))
+                except Exception as e:
+                    rep.violation(dict(kind="inference-raised-on-the-marginalised-or-original-circuit", circuit=tab.brief(), keep=keep,
+                                       marginalised=mtab.brief(), error=f"{type(e).__name__}: {e}"), True)
+                    break
                 if sorted(int(v) for v in mroot.scope) != ks:
                     oracle = dict(what="scope of the marginalised circuit is not the kept set", scope=[int(v) for v in mroot.scope])
                 elif not np.allclose(E, E0, rtol=2e-4, atol=1e-9):
